@@ -45,16 +45,18 @@ Theorem C40_replenish_by_consumed_reads : forall c id k s,
 Proof. exact read_replenishes. Qed.
 Print Assumptions C40_replenish_by_consumed_reads.
 
-(* replenish_by_consumed is REFUTED for dropped DATA (known finding 1): a client that sends 1000 bytes on a
-   stream that does not exist and then uses the session normally never gets those 1000 bytes of session
-   window back: the executable property is false on the model's own trace, and the input is in the
-   known-finding class; the same exchange without the stray frame satisfies the property. *)
+(* replenish_by_consumed is still REFUTED for unread bytes of a closed stream (known finding 1): a client that
+   sends 1000 bytes on stream 1 and resets it before the handler reads them never gets those 1000 bytes of
+   session window back: the executable property is false on the model's own trace, and the input is in the
+   known-finding class.  Dropped DATA frames (unknown stream) ARE returned since the fix (second example). *)
 Theorem C40_replenish_by_consumed_refuted :
   prop_C40 w_leak (run_C40 w_leak) = false /\ kf_C40 w_leak = 1.
 Proof. exact leak_lemma. Qed.
 Print Assumptions C40_replenish_by_consumed_refuted.
 Example C40_replenish_nonvacuous : prop_C40 w_noleak (run_C40 w_noleak) = true /\ kf_C40 w_noleak = 0.
 Proof. exact noleak_lemma. Qed.
+Example C40_dropped_data_refunded : prop_C40 w_dropped (run_C40 w_dropped) = true /\ kf_C40 w_dropped = 0.
+Proof. exact dropped_lemma. Qed.
 
 (* inbound_within_window is REFUTED from the client's point of view (known finding 2): the stream-level
    WINDOW_UPDATE waits behind the stream's flow-blocked response DATA while the server already counts the
@@ -88,16 +90,18 @@ Theorem C40_duplicate_id_reset : forall c id fin cl bad,
 Proof. exact syn_dup_id. Qed.
 Print Assumptions C40_duplicate_id_reset.
 
-(* closed_stream_frames_rejected: DATA for a stream that is not in the table is answered with
-   RST_STREAM(INVALID_STREAM); DATA for a stream the client already half-closed is answered with
-   RST_STREAM(STREAM_ALREADY_CLOSED) and the stream is closed.  (emit = nothing after a GOAWAY with an error status) *)
+(* closed_stream_frames_rejected (+ replenish for dropped DATA, after the /repo fix e68f394): DATA of n > 0
+   bytes for a stream that is not in the table, fitting the session window, is answered with
+   WINDOW_UPDATE(session, n) -- the dropped bytes are handed back at once -- then RST_STREAM(INVALID_STREAM),
+   and the server's session window is unchanged.  DATA for a stream the client already half-closed is dropped the
+   same way (drop_data) with RST_STREAM(STREAM_ALREADY_CLOSED).  (emit = nothing after a GOAWAY with an error status) *)
 Theorem C40_closed_stream_frames_rejected : forall c id n fin,
-  find_s id (strs c) = None ->
-  exists c' fs, process_data c id n fin = (c', emit c [f_rst id 2] ++ fs).
+  find_s id (strs c) = None -> 0 < n -> n <= cinflow c ->
+  exists c' fs, process_data c id n fin = (c', emit c [f_wu 0 n] ++ emit c [f_rst id 2] ++ fs) /\ cinflow c' = cinflow c.
 Proof. exact data_unknown_stream. Qed.
 Print Assumptions C40_closed_stream_frames_rejected.
 Theorem C40_half_closed_stream_data_rejected : forall c id n fin s,
   find_s id (strs c) = Some s -> sstate s <> 1 ->
-  process_data c id n fin = then_tickle (close_s c id, emit c [f_rst id 9]).
+  process_data c id n fin = drop_data c id n 9.
 Proof. exact data_closed_stream. Qed.
 Print Assumptions C40_half_closed_stream_data_rejected.
